@@ -994,6 +994,39 @@ func (it *Interp) stdlib(fr *Frame, x *ssa.Call, fn *ssa.Function, args []Value)
 		h := &HashObj{ID: it.nobj, Alg: 5}
 		it.Hashes = append(it.Hashes, h)
 		return Iface{Dyn: HashRef{h}}
+	case "sync.Pool.Get":
+		// the pool's New function makes the object; a recycled object is in the state its previous user left it in:
+		// a hash state is marked as holding unknown input until it is reset
+		if pp, ok := args[0].(Ptr); ok {
+			if st, isS := pp.C.Typ.Underlying().(*types.Struct); isS {
+				for i := 0; i < st.NumFields(); i++ {
+					if st.Field(i).Name() != "New" || i >= len(pp.C.Kids) {
+						continue
+					}
+					var callee *ssa.Function
+					var binds []Value
+					switch fv := it.loadValue(pp.C.Kids[i]).(type) {
+					case FuncV:
+						callee = fv.Fn
+					case ClosureV:
+						callee, binds = fv.Fn, fv.Binds
+					}
+					if callee == nil || !it.P.InModule(callee) {
+						break
+					}
+					it.pendingBinds = binds
+					r := it.callFn(callee, nil, false)
+					if ifc, isI := r.(Iface); isI {
+						if hr, isH := ifc.Dyn.(HashRef); isH {
+							hr.H.Pending = []Seg{{Name: "state left in the pool by a previous user", Len: SymInt("len(pooled-state)", bigZero, big.NewInt(math.MaxInt64))}}
+						}
+					}
+					return r
+				}
+			}
+		}
+	case "sync.Pool.Put":
+		return nil
 	case "bytes.Join":
 		// concatenation of byte strings with an empty separator
 		if sep, okS := it.sliceSegs(args[1]); okS && len(sep) == 0 {
